@@ -45,7 +45,7 @@ def pick(seq, k):
     for i, c in enumerate(seq):
         if k == i:
             return c
-    raise IndexError(k)
+    raise IndexError("pick: index out of range")
 
 
 # CrossHair randomly realises int/float/str arguments up front ("premature realize") as a bug-finding heuristic; it is an
